@@ -569,6 +569,11 @@ where
 {
     let hash = content_hash(object)?;
 
+    // Work on a copy of the event until nothing can fail anymore, so that the event is left as it
+    // was if an error is returned.
+    let event = object;
+    let mut object = event.clone();
+
     let hashes_value = object
         .entry("hashes".to_owned())
         .or_insert_with(|| CanonicalJsonValue::Object(BTreeMap::new()));
@@ -585,6 +590,7 @@ where
     sign_json(entity_id, key_pair, &mut redacted)?;
 
     object.insert("signatures".into(), mem::take(redacted.get_mut("signatures").unwrap()));
+    *event = object;
 
     Ok(())
 }
